@@ -117,6 +117,10 @@ class LinBinding:
                 return "ok", mab.add_arm(self.lm[label["arm"]])
             if op == "remove_arm":
                 return "ok", mab.remove_arm(self.lm[label["arm"]])
+            if op == "warm_start":
+                q = terms.frac(label["q"])
+                feats = {self.lm[a]: [float(v) for v in f] for a, f in (feat or {}).items() if self.lm[a] in mab.arms}
+                return "ok", mab.warm_start(feats, float(q))
             if op in ("predict", "predict_expectations"):
                 X = [[float(v) for v in x] for x in label["X"]]
                 self.d = len(X[0])
@@ -157,9 +161,11 @@ class LinBinding:
                 out.append(("state.beta", "arm %s: beta = %s, exact ridge solution %s" % (label, _l(model.beta), _l(wantbeta))))
             sst = state["status"][label]
             rst = imp.arm_to_status[arm]
-            got = (bool(rst["is_trained"]), bool(rst["is_warm"]))
-            if got != (sst["tr"], sst["wm"]):
-                out.append(("state.status", "arm %s: (trained, warm) = %s, spec %s" % (label, got, (sst["tr"], sst["wm"]))))
+            by = rst["warm_started_by"]
+            got = (bool(rst["is_trained"]), bool(rst["is_warm"]), "none" if by is None else self.spec_label(by))
+            if got != (sst["tr"], sst["wm"], sst["by"]):
+                out.append(("state.status", "arm %s: (trained, warm, by) = %s, spec %s"
+                            % (label, got, (sst["tr"], sst["wm"], sst["by"]))))
         cold = [a for a in state["arms"] if not state["status"][a]["tr"] and not state["status"][a]["wm"]]
         got = [self.spec_label(a) for a in mab.cold_arms]
         if got != cold:
